@@ -564,6 +564,7 @@ struct Hist {
     display_viol: Option<(String, String)>,
     injected_failed: bool,
     injected_attempted: bool,
+    retry_succeeded: bool,
     observations: u64,
 }
 
@@ -625,6 +626,7 @@ fn run_history(plan: &Plan, order: &[usize], has_parent: &[bool]) -> Hist {
         display_viol: None,
         injected_failed: false,
         injected_attempted: false,
+        retry_succeeded: false,
         observations: 0,
     };
     types::Context::with_context(|ctx| {
@@ -658,6 +660,13 @@ fn run_history(plan: &Plan, order: &[usize], has_parent: &[bool]) -> Hist {
                         hist.injected_failed = true;
                         if let Err(v) = check_display("types::Error", &e) {
                             hist.display_viol = Some(v);
+                        }
+                        // OBSERVATION, not an oracle: the same construction is attempted once
+                        // more. The property is silent about a context after an error (false
+                        // alarm 9), so a retry that succeeds is counted and reported in the
+                        // evidence, never raised.
+                        if let Some(Ok(_)) = construct(&ctx, plan.family, nd, &h) {
+                            hist.retry_succeeded = true;
                         }
                     }
                 }
@@ -758,6 +767,7 @@ struct Stats {
     orders_distinct: usize,
     arrows_checked: u64,
     injected_failed: u64,
+    retry_succeeded: u64,
 }
 
 fn exec(plan: &Plan, st: &mut Stats) -> Result<(), Viol> {
@@ -799,6 +809,9 @@ fn exec(plan: &Plan, st: &mut Stats) -> Result<(), Viol> {
         };
         let model_accepts = m.clash_at.is_none() && !m.root_clash && m.finite_reachable;
         let relaxed = h.injected_failed;
+        if h.retry_succeeded {
+            st.retry_succeeded += 1;
+        }
         if h.injected_failed {
             st.injected_failed += 1;
         }
@@ -1345,6 +1358,7 @@ impl C04 {
         out.count("histories_rejected_at_root_or_finalize", st.rejected_root);
         out.count("histories_relaxed_after_injected_failure", st.relaxed);
         out.count("fault_injected_failed_construction", st.injected_failed);
+        out.count("observation_retry_of_failed_construction_succeeded", st.retry_succeeded);
         out.count("fault_early_observation", st.observations);
         out.count("arrows_checked", st.arrows_checked);
         if plan.drop_orphans {
